@@ -159,7 +159,11 @@ def trace_leg(leg, prop, tier, seed, workdir, findings, report):
     name = leg["name"]
     tr = os.path.join(workdir, "%s.ndjson" % name)
     opts = dict(leg.get("opts", {}))
-    dt_drive = drive(leg["workload"], seed, n, tr, opts, timeout=leg.get("drive_timeout", 900))
+    if leg.get("prerecorded"):
+        tr = leg["prerecorded"]
+        dt_drive = 0.0
+    else:
+        dt_drive = drive(leg["workload"], seed, n, tr, opts, timeout=leg.get("drive_timeout", 900))
     scen = split_scenarios(tr)
     if len(scen) < n:
         raise ToolError("workload %s produced %d of %d scenarios" % (name, len(scen), n))
